@@ -26,20 +26,23 @@
    definition rules has no empty super-table and no line-less dotted table).
 
    NOT COVERED (stated exactly):
-     * `order_ok`: documents whose sections are not in the order of the tree walk ("[a]\n[b]\n[a.c]", "[t.a.q]\n[t]")
-       fail it (wfb_ex_unordered); the derivation would have to follow Display's sort by position instead;
-     * for C03's general clause two premises about the parsed tree remain, both DECIDABLE and checked by
-       `order_data_check`: order_b, and `abs_doc_of (despanned tree) = abs_doc d`.  The second fails exactly when some
-       table got a sub-table before one of its key/value lines ("[t.s]\n[t]\nx=1": Display moves x in front) — excluded
-       by order_b for parsed documents, not yet proved — or when a super-table received a dotted key, class U1
-       (wfb_ex_u1: "[t.a.b]\n[t]\na.c.x=1" prints `[t.a]` for the super-table a, and the re-parsed tree has
-       kind KHeader where the original has KSuper: `abs_doc d' = abs_doc d` is FALSE there, the data apart from the
-       kinds being equal). *)
+     * the unconditional general clause (C03_general_reparse_undotted) needs `nodot`: no key/value line with a dotted key.
+       For documents WITH dotted-key lines what is proved is: parse_WF (all of WF but order_ok), the derivation for any
+       order of the sections (WF_print_parse_any_order), and the reparse theorem under a decidable check
+       (C03_general_reparse_replay_partial: run the definition rules on Display's statements; or
+       C03_general_reparse_partial for sections in walk order).  Missing there: the position / regrouping invariant of
+       on_keyval with a dotted path (the lines of a section are regrouped by Display; Proofs/WFSem.v `dfold` is the
+       specification half of that).
+     * class U1 ("[t.a.b]\n[t]\na.c.x=1": a dotted key through a super-table): the clause is FALSE with kinds
+       (wfb_ex_u1: the re-parsed tree has KHeader where the original has KSuper); it needs a dotted key, so it is
+       outside `nodot`.
+     * `order_ok` remains the premise of the order-free SEMANTIC theorem for arbitrary (edited, built) trees
+       (WF_print_parse); for them `WF_print_parse_any_order` trades it for the validity of Display's statements. *)
 From TV Require Import Base.Prelude Base.Utf8 Base.Winnow Gen.Consts Spec.Abnf Spec.Lex Spec.Defs Spec.Syntax Spec.WF.
 From TV Require Import Model.Tree Model.Parse Model.Document Model.Encode.
 From TV Require Import Proofs.GrammarBase Proofs.PrintBackBase.
 From TV Require Import Proofs.WFSem Proofs.WFSemDoc Proofs.WFBool Proofs.WFBoolSound Proofs.WFPrintValue Proofs.WFTree Proofs.WFPrintTop Proofs.WFReparse
-                       Proofs.WFParseTop Proofs.WFReparseParsed Proofs.WFReplay.
+                       Proofs.WFParseTop Proofs.WFReparseParsed Proofs.WFReplay Proofs.WFOrderDoc Proofs.WFOrderTop.
 Require Import String Ascii.
 
 (* ---- the backbone ------------------------------------------------------------------------------------------------------- *)
@@ -137,6 +140,27 @@ Theorem C03_general_reparse_replay_partial : forall s d o,
   exists d', parse_document o = POk d' /\ abs_doc d' = abs_doc d.
 Proof. exact reparse_replay. Qed.
 Print Assumptions C03_general_reparse_replay_partial.
+
+(* ---- C03, general clause, UNCONDITIONAL for documents whose key/value lines have undotted keys ------------------------- *)
+(* `nodot (doc_root d)`: the parsed tree holds no table made of dotted keys, i.e. no key/value line was written with a
+   dotted key (header paths of any length, dotted keys inside inline tables, comments, every layout are allowed).
+   Then, WHATEVER THE ORDER OF THE SECTIONS (sub-tables before their parents, super-tables given a header later,
+   interleaved elements of arrays of tables ...): the text the document prints is accepted again and decodes to the same
+   data, kinds included.  No other premise.
+   The semantic half, on the tree alone: Display's statements (replay_stmts) define the document's data.  Proved along
+   the parse (Proofs/WFOrderDoc.v): the positioned sections of the state, sorted by position, are the statements read
+   so far and run to the state of C09's simulation; on eng-c01's relational view of descend_path (dctx_rel) and sorting
+   lemmas (stable_sort_unique). *)
+Theorem C03_replay_defines_undotted : forall s d,
+  parse_document s = POk d -> nodot (doc_root d) = true -> spec_run (replay_stmts (doc_root d)) = Valid (abs_doc d).
+Proof. exact nodot_replay. Qed.
+Print Assumptions C03_replay_defines_undotted.
+
+Theorem C03_general_reparse_undotted : forall s d o,
+  parse_document s = POk d -> nodot (doc_root d) = true -> print_doc s d = Some o ->
+  exists d', parse_document o = POk d' /\ abs_doc d' = abs_doc d.
+Proof. exact reparse_nodot. Qed.
+Print Assumptions C03_general_reparse_undotted.
 
 (* for any tree, parsed or not, with the facts given as premises *)
 Theorem C03_general_reparse_of_WF : forall s d r t,
@@ -238,7 +262,7 @@ Definition ex_abc : bytes := txt ("[a]" ++ lf ++ "[b]" ++ lf ++ "[a.c]" ++ lf).
 Definition ex_abc_check : bool :=
   match parse_document ex_abc with
   | POk d => match tbl_despan ex_abc (doc_root d) with
-             | Some r => tbl_b true r && tbl_lim_b 0 0 r && negb (order_b r) && replay_check ex_abc d
+             | Some r => tbl_b true r && tbl_lim_b 0 0 r && negb (order_b r) && replay_check ex_abc d && nodot (doc_root d)
              | None => false
              end
   | _ => false
